@@ -2,7 +2,7 @@
    (router ID ended up in wrong bucket, find_candidate returned no node, node lost after add). *)
 From Coq Require Import List NArith Bool Lia Permutation.
 From LTV.C15 Require Import ParamsGen.
-From LTV.C15 Require Import Model ProofsMid ProofsTableA ProofsTableB ProofsTableC.
+From LTV.C15 Require Import Model ProofsMid ProofsTableA ProofsTableB ProofsTableC ProofsTokens.
 Import ListNotations.
 Local Open Scope N_scope.
 
@@ -16,8 +16,8 @@ Definition chain_ok (t : table) : Prop :=
   (exists pre, tchain t = pre ++ [town t] /\ ~ In (town t) pre) /\ incl (tchain t) (keys (tb t)).
 Definition node_seen_ok (n : node) : Prop := nseen n < u32 - 1.
 Definition seen_ok (bs : list bucket) : Prop := Forall (fun b => Forall node_seen_ok (bnodes b)) bs.
-Definition tabinv (ownid : N) (t : table) : Prop :=
-  tinv (tb t) /\ own_in_town ownid t /\ chain_ok t /\ seen_ok (tb t).
+Definition aux (ownid : N) (t : table) : Prop := own_in_town ownid t /\ chain_ok t /\ seen_ok (tb t).
+Definition tabinv (ownid : N) (t : table) : Prop := tinv (tb t) /\ aux ownid t.
 
 (* ---------------------------------------------------------------- generic lemmas *)
 Lemma tinv_keys_unique : forall bs s x y, contiguous s bs -> Forall bucket_ok bs ->
@@ -73,14 +73,12 @@ Proof.
 Qed.
 
 (* in-place bucket updates keep everything that is about ranges, chain and own bucket *)
-Lemma tabinv_map_bucket : forall ownid t k f,
+Lemma aux_map_bucket : forall ownid t k f,
   (forall b, blo (f b) = blo b /\ bhi (f b) = bhi b) ->
-  (forall b, bucket_ok b -> bucket_ok (f b)) ->
   (forall b, Forall node_seen_ok (bnodes b) -> Forall node_seen_ok (bnodes (f b))) ->
-  tabinv ownid t -> tabinv ownid (mkTable (map_bucket k f (tb t)) (tchain t) (town t)).
+  aux ownid t -> aux ownid (mkTable (map_bucket k f (tb t)) (tchain t) (town t)).
 Proof.
-  intros ownid t k f R OK SN [T [[ob [G [O1 O2]]] [[CP CI] S]]]. unfold tabinv. simpl. split; [|split; [|split]].
-  - apply tinv_map_bucket; assumption.
+  intros ownid t k f R SN [[ob [G [O1 O2]]] [[CP CI] S]]. unfold aux. simpl. split; [|split].
   - unfold own_in_town. simpl. rewrite (get_map_bucket_any _ k f _ ob (fun b => proj2 (R b)) G).
     destruct (bhi ob =? k); [destruct (R ob) as [A B]; eexists; split; [reflexivity|]; rewrite A, B; split; assumption|].
     eexists; split; [reflexivity|split; assumption].
@@ -89,16 +87,12 @@ Proof.
     destruct (bhi b =? k); [apply SN|]; assumption.
 Qed.
 
-Lemma tabinv_map : forall ownid t g,
+Lemma aux_map : forall ownid t g,
   (forall b, blo (g b) = blo b /\ bhi (g b) = bhi b) ->
-  (forall b, bucket_ok b -> bucket_ok (g b)) ->
   (forall b, Forall node_seen_ok (bnodes b) -> Forall node_seen_ok (bnodes (g b))) ->
-  tabinv ownid t -> tabinv ownid (mkTable (map g (tb t)) (tchain t) (town t)).
+  aux ownid t -> aux ownid (mkTable (map g (tb t)) (tchain t) (town t)).
 Proof.
-  intros ownid t g R OK SN H.
-  assert (E : map g (tb t) = map_bucket (town t) g (map_bucket (town t) (fun b => b) (tb t)) \/ True) by (right; exact I).
-  clear E. destruct H as [T [[ob [G [O1 O2]]] [[CP CI] S]]]. unfold tabinv. simpl. split; [|split; [|split]].
-  - apply tinv_map; assumption.
+  intros ownid t g R SN [[ob [G [O1 O2]]] [[CP CI] S]]. unfold aux. simpl. split; [|split].
   - unfold own_in_town. simpl. exists (g ob). destruct (R ob) as [A B]. rewrite A, B. split; [|split; assumption].
     clear - G R. revert G. induction (tb t) as [|b0 r IH]; simpl; [discriminate|].
     destruct (R b0) as [_ B0]. rewrite B0. destruct (bhi b0 =? town t); intros G; [inversion G; reflexivity|apply IH; assumption].
@@ -183,3 +177,476 @@ Proof.
   - destruct (x =? k) eqn:E; [apply N.eqb_eq in E; contradiction|]. rewrite N.eqb_refl. reflexivity.
   - destruct (y =? k) eqn:E; [apply N.eqb_eq in E; exfalso; apply H; left; assumption|]. apply IH; [intro; apply H; right; assumption|assumption].
 Qed.
+
+(* ---------------------------------------------------------------- split of the own bucket *)
+Lemma tinv_disjoint : forall bs s x y, contiguous s bs -> Forall bucket_ok bs -> In x bs -> In y bs -> x <> y ->
+  bhi x < blo y \/ bhi y < blo x.
+Proof.
+  induction bs as [|b0 r IH]; simpl; intros s x y C F Ix Iy Ne; [destruct Ix|].
+  destruct C as [C1 C2]. inversion F as [|? ? F0 Fr]; subst.
+  destruct Ix as [<-|Ix]; destruct Iy as [<-|Iy]; try contradiction.
+  - destruct (contiguous_bounds _ _ _ C2 Fr Iy). left. lia.
+  - destruct (contiguous_bounds _ _ _ C2 Fr Ix). right. lia.
+  - eapply IH; eauto.
+Qed.
+
+Lemma mid_not_key : forall bs b mid, tinv bs -> In b bs -> blo b <= mid -> mid < bhi b -> ~ In mid (keys bs).
+Proof.
+  intros bs b mid [C F] Ib L1 L2 I. unfold keys in I. apply in_map_iff in I. destruct I as [x [E Ix]].
+  destruct (tinv_disjoint _ _ x b C F Ix Ib) as [H|H]; [intro; subst; lia|lia|].
+  pose proof (ok_le _ (proj1 (Forall_forall _ _) F _ Ix)). lia.
+Qed.
+
+Definition survives (ownid : N) (bs bs' : list bucket) : Prop :=
+  forall r, In r (ranges bs) -> In r (ranges bs') \/ (fst r <= ownid /\ ownid <= snd r).
+
+Lemma split_own : forall ownid ndid b t kk t' k' bad,
+  tabinv ownid t -> get_bucket (town t) (tb t) = Some b -> is_full b = true ->
+  prefix_range (blo b) (bhi b) kk -> kk <= idbits -> blo b <= ndid -> ndid <= bhi b ->
+  split_bucket ownid ndid b t = (t', k', bad) ->
+  bad = false /\ aux ownid t' /\ (forall r, In r (ranges (tb t)) -> r <> (blo b, bhi b) -> In r (ranges (tb t'))).
+Proof.
+  intros ownid ndid b t kk t' k' bad [T [[ob [Gob [O1 O2]]] [[[pre [CP NP]] CI] SO]]] G Fu P Kk N1 N2 S.
+  rewrite G in Gob. inversion Gob; subst ob. clear Gob.
+  destruct (split_tinv _ _ _ _ _ _ _ _ _ T G Fu P Kk N1 N2 S) as [T' [_ [_ [_ [_ [_ [REST _]]]]]]].
+  destruct (get_bucket_in _ _ _ G) as [I Hk].
+  assert (OKb : bucket_ok b) by (destruct T as [_ F]; eapply Forall_forall; eauto).
+  destruct T as [C F]. destruct (contiguous_bounds _ _ _ C F I) as [_ U].
+  pose proof (full_wide _ _ OKb Fu P) as K1.
+  pose proof (mid_point_prefix _ _ _ K1 Kk P U) as MP.
+  destruct (prefix_halves _ _ _ K1 P) as [PL [PH [Mlt Mge]]].
+  unfold split_bucket in S. rewrite MP in S.
+  set (mid := blo b + 2 ^ (kk - 1) - 1) in *.
+  assert (LO' : (mid + 1) mod idspace = mid + 1) by (apply N.mod_small; lia).
+  rewrite LO' in S.
+  destruct (hoare_partition _ _ (bnodes b)) as [keep moved] eqn:HP.
+  destruct (hoare_partition_spec _ _ _ _ _ (PeanoNat.Nat.lt_succ_diag_r _) HP) as [PM _].
+  set (other := mkBucket (blo b) mid moved (bchanged b) (count is_good moved) (count is_bad moved) []) in *.
+  set (this := mkBucket (mid + 1) (bhi b) keep (bchanged b) (count is_good keep) (count is_bad keep) (bcache b)) in *.
+  set (bs' := insert_bucket other (map_bucket (bhi b) (fun _ => this) (tb t))) in *.
+  assert (INo : In other bs') by (apply in_insert_bucket; left; reflexivity).
+  assert (INt : In this bs').
+  { apply in_insert_bucket. right. unfold map_bucket. apply in_map_iff. exists b. rewrite N.eqb_refl. split; [reflexivity|assumption]. }
+  assert (MK : ~ In mid (keys (tb t))) by (eapply mid_not_key; eauto; split; assumption).
+  assert (KS : forall x, In x (keys (tb t)) -> In x (keys bs')).
+  { intros x Hx. unfold keys in *. apply in_map_iff in Hx. destruct Hx as [y [E Iy]]. apply in_map_iff.
+    destruct (N.eq_dec (bhi y) (bhi b)) as [Eq|Nq].
+    - exists this. split; [simpl; congruence|assumption].
+    - exists y. split; [assumption|]. inversion S; subst t'. apply REST; [assumption|]. intro; subst; contradiction. }
+  assert (SK : Forall node_seen_ok (keep ++ moved)).
+  { unfold seen_ok in SO. pose proof (proj1 (Forall_forall _ _) SO b I) as Sb.
+    rewrite Forall_forall in *. intros n Hn. apply Sb. eapply Permutation_in; [apply Permutation_sym; exact PM|assumption]. }
+  apply Forall_app in SK. destruct SK as [SKk SKm].
+  assert (SO' : seen_ok bs').
+  { unfold seen_ok. rewrite Forall_forall. intros x Hx. apply in_insert_bucket in Hx. destruct Hx as [->|Hx]; [exact SKm|].
+    unfold map_bucket in Hx. apply in_map_iff in Hx. destruct Hx as [y [E Iy]].
+    destruct (bhi y =? bhi b); subst x; [exact SKk|]. unfold seen_ok in SO. rewrite Forall_forall in SO. apply SO. assumption. }
+  assert (Tn : town t = bhi b) by (symmetry; assumption).
+  assert (RS : forall r, In r (ranges (tb t)) -> r <> (blo b, bhi b) -> In r (ranges bs')).
+  { intros r Hr Nr. unfold ranges in *. apply in_map_iff in Hr. destruct Hr as [x [E Ix]]. apply in_map_iff. exists x. split; [assumption|].
+    inversion S; subst t'. apply REST; [assumption|]. intro; subst; contradiction. }
+  destruct (in_range other ownid) eqn:IR.
+  - (* the own id is in the lower half: the new bucket becomes the own bucket *)
+    rewrite CP, Tn, (insert_after_last pre (bhi b) mid) in S by (rewrite <- Tn; assumption).
+    rewrite (next_after pre (bhi b) mid) in S by (rewrite <- Tn; assumption).
+    assert (GO : get_bucket mid bs' = Some other) by (apply (get_bucket_of_in bs' other); [inversion S; subst t'; exact T'|assumption]).
+    rewrite GO in S. rewrite IR in S. simpl in S. inversion S; subst t' k' bad. split; [reflexivity|]. split; [|exact RS].
+    unfold aux. simpl. split; [|split; [|exact SO']].
+    + exists other. split; [exact GO|]. unfold in_range in IR. simpl in IR. apply andb_true_iff in IR.
+      destruct IR as [A B]. apply N.leb_le in A. apply N.leb_le in B. simpl. split; assumption.
+    + unfold chain_ok. simpl. split.
+      * exists (pre ++ [bhi b]). split; [rewrite <- app_assoc; reflexivity|].
+        intro X. apply in_app_or in X. destruct X as [X|[X|[]]].
+        -- apply MK. apply CI. rewrite CP. apply in_or_app. left. assumption.
+        -- lia.
+      * intros x Hx. apply in_app_or in Hx. destruct Hx as [Hx|[Hx|[Hx|[]]]].
+        -- apply KS. apply CI. rewrite CP. apply in_or_app. left. assumption.
+        -- subst x. apply KS. apply CI. rewrite CP, Tn. apply in_or_app. right. left. reflexivity.
+        -- subst x. unfold keys. apply in_map_iff. exists other. split; [reflexivity|assumption].
+  - (* the own id stays in the upper half *)
+    rewrite CP, Tn, (insert_before_last pre (bhi b) mid) in S by (rewrite <- Tn; assumption).
+    rewrite (next_before pre (bhi b) mid) in S by (try (rewrite <- Tn; assumption); lia).
+    assert (GT : get_bucket (bhi b) bs' = Some this) by (apply (get_bucket_of_in bs' this); [inversion S; subst t'; exact T'|assumption]).
+    rewrite GT in S.
+    assert (IT : in_range this ownid = true).
+    { unfold in_range in *. simpl in *. apply andb_false_iff in IR. apply andb_true_iff. split; apply N.leb_le;
+        destruct IR as [X|X]; apply N.leb_gt in X; lia. }
+    rewrite IT in S. simpl in S. inversion S; subst t' k' bad. split; [reflexivity|]. split; [|exact RS].
+    unfold aux. simpl. split; [|split; [|exact SO']].
+    + exists this. split; [exact GT|]. unfold in_range in IT. simpl in IT. apply andb_true_iff in IT.
+      destruct IT as [A B]. apply N.leb_le in A. apply N.leb_le in B. simpl. split; assumption.
+    + unfold chain_ok. simpl. split.
+      * exists (pre ++ [mid]). split; [rewrite <- app_assoc; reflexivity|].
+        intro X. apply in_app_or in X. destruct X as [X|[X|[]]]; [rewrite <- Tn in X; contradiction|lia].
+      * intros x Hx. apply in_app_or in Hx. destruct Hx as [Hx|[Hx|[Hx|[]]]].
+        -- apply KS. apply CI. rewrite CP. apply in_or_app. left. assumption.
+        -- subst x. unfold keys. apply in_map_iff. exists other. split; [reflexivity|assumption].
+        -- subst x. apply KS. apply CI. rewrite CP, Tn. apply in_or_app. right. left. reflexivity.
+Qed.
+
+(* ---------------------------------------------------------------- add_node_to_bucket *)
+Lemma survives_refl : forall o bs, survives o bs bs.
+Proof. intros o bs r H. left. assumption. Qed.
+
+Lemma all_ids_lookup : forall id bs, In id (all_ids bs) -> lookup id bs <> None.
+Proof.
+  induction bs as [|b r IH]; simpl; intros H; [destruct H|].
+  destruct (find_in_nodes id (bnodes b)) eqn:F; [discriminate|].
+  apply in_app_or in H. destruct H as [H|H]; [exfalso; eapply find_in_nodes_none; eauto|apply IH; assumption].
+Qed.
+
+Lemma lookup_all_ids : forall id bs k n, lookup id bs = Some (k, n) -> In id (all_ids bs).
+Proof.
+  induction bs as [|b r IH]; simpl; intros k n H; [discriminate|].
+  destruct (find_in_nodes id (bnodes b)) as [m|] eqn:F.
+  - destruct (find_in_nodes_some _ _ _ F) as [I E]. apply in_or_app. left. unfold ids_of. apply in_map_iff. exists m. split; assumption.
+  - apply in_or_app. right. eapply IH; eauto.
+Qed.
+
+Lemma all_ids_map_bucket : forall k f bs, (forall b, ids_of (f b) = ids_of b) -> all_ids (map_bucket k f bs) = all_ids bs.
+Proof.
+  intros k f bs H. unfold all_ids, map_bucket. induction bs as [|b r IH]; simpl; [reflexivity|].
+  rewrite IH. destruct (bhi b =? k); [rewrite H|]; reflexivity.
+Qed.
+
+Lemma add_loop_own : forall fuel ownid tm nd k t,
+  tinv (tb t) -> aux ownid t -> at_bucket (tb t) k (nid nd) -> node_seen_ok nd ->
+  match add_loop fuel ownid tm nd k t with
+  | LDone t' ok => aux ownid t' /\ survives ownid (tb t) (tb t') /\ (ok = true -> In (nid nd) (all_ids (tb t')))
+  | LErr t' => False
+  | LFuel => True
+  end.
+Proof.
+  induction fuel as [|fu IH]; intros ownid tm nd k t T A [b [G [A1 [A2 A3]]]] SN; [exact I|].
+  cbn [add_loop]. rewrite G.
+  pose proof (tinv_bucket _ _ _ T G) as OKb.
+  destruct (get_bucket_in _ _ _ G) as [Ib Hb].
+  assert (Sb : Forall node_seen_ok (bnodes b)).
+  { destruct A as [_ [_ S]]. unfold seen_ok in S. rewrite Forall_forall in S. apply S. assumption. }
+  destruct (is_full b) eqn:Fu; simpl.
+  2:{ split; [|split].
+      - apply aux_map_bucket; [intros; split; reflexivity|intros; apply seen_add; assumption|assumption].
+      - intros r Hr. left. rewrite ranges_map_bucket; [assumption|intros; split; reflexivity].
+      - intros _. unfold all_ids. apply in_flat_map. exists (b_add tm nd b). split.
+        + unfold map_bucket. apply in_map_iff. exists b. rewrite Hb, N.eqb_refl. split; [reflexivity|assumption].
+        + unfold ids_of, b_add. simpl. rewrite map_app. apply in_or_app. right. left. reflexivity. }
+  destruct (find_cand (bnodes b)) as [c|] eqn:FC; [|exact (find_cand_some b Fu Sb FC)].
+  destruct (is_bad c) eqn:Bc.
+  - (* replace a bad node *)
+    assert (T1 : tinv (map_bucket k (b_remove c) (tb t))) by (apply tinv_map_bucket; [intros; split; reflexivity|apply ok_remove|assumption]).
+    assert (A' : aux ownid (mkTable (map_bucket k (b_remove c) (tb t)) (tchain t) (town t)))
+      by (apply aux_map_bucket; [intros; split; reflexivity|intros; apply seen_remove; assumption|assumption]).
+    specialize (IH ownid tm nd k (mkTable (map_bucket k (b_remove c) (tb t)) (tchain t) (town t)) T1 A').
+    assert (AT : at_bucket (map_bucket k (b_remove c) (tb t)) k (nid nd)).
+    { exists (b_remove c b). split; [apply get_map_bucket; [assumption|reflexivity]|].
+      simpl. repeat split; try assumption. unfold ids_of. simpl. intro X. apply A3. eapply remove_id_in; eauto. }
+    specialize (IH AT SN). simpl in IH.
+    destruct (add_loop fu ownid tm nd k _) as [t' ok|t'|]; try assumption.
+    destruct IH as [X [Y Z]]. split; [assumption|split; [|assumption]].
+    intros r Hr. apply Y. simpl. rewrite ranges_map_bucket; [assumption|intros; split; reflexivity].
+  - destruct (k =? town t) eqn:Ek; simpl; [|split; [assumption|split; [apply survives_refl|discriminate]]].
+    apply N.eqb_eq in Ek. subst k.
+    destruct (split_bucket ownid (nid nd) b t) as [[t' k'] bad] eqn:S.
+    destruct OKb as [[kk [Kk P]] OKr].
+    assert (OKb : bucket_ok b) by (split; [exists kk; split; assumption|assumption]).
+    destruct (split_tinv _ _ _ _ _ _ _ _ _ T G Fu P Kk A1 A2 S) as [T' [h [Gh [HO [B1 [B2 [_ Sub]]]]]]].
+    assert (G2 : get_bucket (town t) (tb t) = Some b) by (rewrite <- Ek; exact G).
+    destruct (split_own _ _ _ _ _ _ _ _ (conj T A) G2 Fu P Kk A1 A2 S) as [Bf [A' RS]]. subst bad.
+    assert (AT : at_bucket (tb t') k' (nid nd)).
+    { exists h. repeat split; try assumption. intro X. apply A3. apply Sub. assumption. }
+    specialize (IH ownid tm nd k' t' T' A' AT SN).
+    destruct (add_loop fu ownid tm nd k' t') as [t'' ok|t''|]; try assumption.
+    destruct IH as [X [Y Z]]. split; [assumption|split; [|assumption]].
+    intros r Hr. destruct (N.eq_dec (fst r) (blo b)) as [E1|N1]; [destruct (N.eq_dec (snd r) (bhi b)) as [E2|N2]|].
+    + right. destruct A as [[ob [Gob [O1 O2]]] _]. rewrite G2 in Gob. inversion Gob; subst ob. rewrite E1, E2. split; assumption.
+    + apply Y. apply RS; [assumption|]. intro; subst r; simpl in *; contradiction.
+    + apply Y. apply RS; [assumption|]. intro; subst r; simpl in *; contradiction.
+Qed.
+
+(* ---------------------------------------------------------------- every op *)
+Section OwnSteps.
+Variable sha : list N -> list N.
+
+Definition sI (s : state) : Prop := tabinv (own s) (tab s) /\ err s = false.
+
+(* node ids carried by replies are 20-byte strings *)
+Definition op_ok (o : op) : Prop :=
+  match o with OReplied id _ _ => id < idspace | _ => True end.
+
+Lemma closest_aux : forall o t id, aux o t -> aux o (fst (closest_nodes t id)).
+Proof.
+  intros o t id A. unfold closest_nodes. destruct (find_bucket id (tb t)) as [b|]; [|exact A].
+  destruct (bcache b); [|exact A]. simpl.
+  apply aux_map_bucket; [intros; split; reflexivity|intros; assumption|assumption].
+Qed.
+Lemma closest_ranges : forall t id, ranges (tb (fst (closest_nodes t id))) = ranges (tb t).
+Proof.
+  intros t id. unfold closest_nodes. destruct (find_bucket id (tb t)) as [b|]; [|reflexivity].
+  destruct (bcache b); [|reflexivity]. simpl. apply ranges_map_bucket. intros; split; reflexivity.
+Qed.
+
+Definition same_ranges (s s' : state) : Prop := ranges (tb (tab s')) = ranges (tb (tab s)).
+
+Lemma node_queried_own : forall s id ip, sI s -> now s < u32 - 1 ->
+  sI (fst (node_queried s id ip)) /\ same_ranges s (fst (node_queried s id ip)) /\ own (fst (node_queried s id ip)) = own s /\ now (fst (node_queried s id ip)) = now s.
+Proof.
+  intros s id ip [[T A] E] Nw. unfold node_queried, same_ranges.
+  assert (Base : sI s /\ ranges (tb (tab s)) = ranges (tb (tab s)) /\ own s = own s /\ now s = now s)
+    by (split; [split; [split; assumption|assumption]|split; [reflexivity|split; reflexivity]]).
+  destruct (lookup id (tb (tab s))) as [[k n]|]; [|exact Base].
+  destruct (negb (nip n =? ip)); [exact Base|]. simpl.
+  split; [split; [split|assumption]|split; [|split; reflexivity]].
+  - apply tinv_map_bucket; [rng| |assumption].
+    intros b Hb. destruct (nseen n =? 0); [destruct (is_good n); [apply ok_touch|]; assumption|]. apply ok_touch. apply ok_set_good. assumption.
+  - apply aux_map_bucket; [rng| |assumption].
+    intros b Hb. destruct (nseen n =? 0); [destruct (is_good n); assumption|]. simpl. apply (seen_set_good (now s) n b Nw Hb).
+  - apply ranges_map_bucket. rng.
+Qed.
+
+Lemma query_body_own : forall s ip rnd q m, sI s ->
+  sI (fst (query_body sha s ip rnd q m)) /\ same_ranges s (fst (query_body sha s ip rnd q m)) /\
+  own (fst (query_body sha s ip rnd q m)) = own s /\ now (fst (query_body sha s ip rnd q m)) = now s.
+Proof.
+  intros s ip rnd q m [[T A] E]. unfold same_ranges, query_body.
+  assert (Base : sI s /\ ranges (tb (tab s)) = ranges (tb (tab s)) /\ own s = own s /\ now s = now s)
+    by (split; [split; [split; assumption|assumption]|split; [reflexivity|split; reflexivity]]).
+  assert (Cl : forall id, let s' := with_tab s (fst (closest_nodes (tab s) id)) in
+               sI s' /\ ranges (tb (tab s')) = ranges (tb (tab s)) /\ own s' = own s /\ now s' = now s).
+  { intros id. simpl. split; [split; [split; [apply closest_tinv; assumption|apply closest_aux; assumption]|assumption]|].
+    split; [apply closest_ranges|split; reflexivity]. }
+  destruct (bytes_eqb q s_find_node).
+  { destruct (m_target m) as [tg|]; [|exact Base]. destruct (lenN tg <? hs_len); [exact Base|].
+    specialize (Cl (be_to_N (firstn idbytes tg))). destruct (closest_nodes _ _) as [t' [|c l']]; exact Cl. }
+  destruct (bytes_eqb q s_get_peers).
+  { destruct (m_ih m) as [h|]; [|exact Base]. destruct (lenN h <? hs_len); [exact Base|].
+    specialize (Cl (be_to_N (firstn idbytes h))).
+    destruct (get_tracker _ _) as [[|p l0]|]; try exact Base; destruct (closest_nodes _ _) as [t' [|c l']]; exact Cl. }
+  destruct (bytes_eqb q s_announce_peer).
+  { destruct (m_ih m) as [h|]; [|exact Base]. destruct (lenN h <? hs_len); [exact Base|].
+    destruct (m_token m) as [tk|]; [|exact Base]. destruct (negb _); [exact Base|]. destruct (m_port m) as [z| |]; try exact Base.
+    destruct (_ || _); exact Base. }
+  destruct (bytes_eqb q s_ping); exact Base.
+Qed.
+
+Lemma dgram_own : forall s ip rnd m, sI s -> now s < u32 - 1 ->
+  sI (fst (dgram sha s ip rnd m)) /\ same_ranges s (fst (dgram sha s ip rnd m)).
+Proof.
+  intros s ip rnd m H Nw. unfold dgram.
+  assert (Base : sI s /\ same_ranges s s) by (split; [assumption|reflexivity]).
+  destruct (m_t m) as [t|]; [|exact Base]. destruct (20 <? lenN t); [exact Base|].
+  destruct (m_y m) as [[|ty [|? ?]]|]; try exact Base.
+  destruct (ty =? 113); [|exact Base]. destruct (m_id m) as [idb|]; [|exact Base].
+  destruct (lenN idb <? hs_len); [exact Base|].
+  generalize (be_to_N (firstn idbytes idb)). intro nid0. destruct (nid0 =? own s); [exact Base|].
+  destruct (m_q m) as [q|]; [|exact Base].
+  destruct (query_body_own s ip rnd q m H) as [H1 [R1 [O1 N1]]].
+  destruct (query_body sha s ip rnd q m) as [s1 [e|[[tok nodes] vals]]]; cbn [fst snd] in *; [split; assumption|].
+  assert (Nw1 : now s1 < u32 - 1) by (rewrite N1; assumption).
+  destruct (node_queried_own s1 nid0 ip H1 Nw1) as [H2 [R2 _]].
+  split; [assumption|]. unfold same_ranges in *. congruence.
+Qed.
+
+Lemma lookup_map_bucket : forall id k f bs, (forall b, ids_of (f b) = ids_of b) -> lookup id bs <> None ->
+  lookup id (map_bucket k f bs) <> None.
+Proof.
+  intros id k f bs H L. destruct (lookup id bs) as [[k0 n]|] eqn:E; [|contradiction].
+  apply all_ids_lookup. rewrite all_ids_map_bucket by assumption. eapply lookup_all_ids; eauto.
+Qed.
+
+Lemma inactive_ids : forall n b, ids_of (b_inactive n b) = ids_of b.
+Proof.
+  intros. unfold b_inactive, ids_of. destruct (_ =? max_failed); [destruct (is_bad n)|]; simpl; apply upd_node_ids; reflexivity.
+Qed.
+
+(* the whole step: invariant kept, no internal error, and every bucket range that does not contain
+   the own id is still a bucket range afterwards *)
+Lemma step_own : forall s o, sI s -> now s < u32 - 1 -> op_ok o ->
+  sI (fst (step sha s o)) /\ survives (own s) (tb (tab s)) (tb (tab (fst (step sha s o)))) /\ own (fst (step sha s o)) = own s.
+Proof.
+  intros s o H Nw OK. pose proof H as [[T A] E]. unfold step. rewrite E.
+  assert (Base : sI s /\ survives (own s) (tb (tab s)) (tb (tab s)) /\ own s = own s)
+    by (split; [assumption|split; [apply survives_refl|reflexivity]]).
+  assert (SR : forall s', same_ranges s s' -> survives (own s) (tb (tab s)) (tb (tab s'))).
+  { intros s' R r Hr. left. unfold same_ranges in R. rewrite R. assumption. }
+  destruct o as [ip rnd m|ip|dt|id ip port|id ip port|id ip port|id|secret|ip|tok ip|ih ip port tok|ih ip rnd|target|id|];
+    simpl; try exact Base.
+  - destruct (dgram_own s ip rnd m H Nw) as [H1 R1].
+    pose proof (dgram_cp sha s ip rnd m) as CP. cbv zeta in CP. destruct CP as [_ [_ [Ow _]]].
+    destruct (m_y m) as [[|ty [|? ?]]|]; try (destruct (dgram sha s ip rnd m); simpl in *; split; [assumption|split; [apply SR; assumption|assumption]]).
+    destruct ((ty =? 114) || (ty =? 101)); [exact Base|].
+    destruct (dgram sha s ip rnd m); simpl in *; split; [assumption|split; [apply SR; assumption|assumption]].
+  - split; [split; [split; assumption|first [assumption|reflexivity]]|split; [apply survives_refl|reflexivity]].
+  - destruct (id =? own s); [exact Base|]. rewrite (surjective_pairing (node_queried s id ip)). simpl.
+    destruct (node_queried_own s id ip H Nw) as [H1 [R1 [O1 _]]]. split; [assumption|split; [apply SR; assumption|assumption]].
+  - destruct (id =? own s) eqn:Eo; [exact Base|]. unfold node_replied.
+    assert (SG : forall t k n, tinv (tb t) -> aux (own s) t ->
+               sI (with_tab s (mkTable (map_bucket k (fun b => touch (now s) (b_set_good (now s) n b)) (tb t)) (tchain t) (town t))) /\
+               ranges (map_bucket k (fun b => touch (now s) (b_set_good (now s) n b)) (tb t)) = ranges (tb t)).
+    { intros t k n Tt At. split; [split; [split|assumption]|].
+      - simpl. apply tinv_map_bucket; [rng|intros; apply ok_touch; apply ok_set_good; assumption|assumption].
+      - simpl. apply aux_map_bucket; [rng|intros b Hb; simpl; apply (seen_set_good (now s) n b Nw Hb)|assumption].
+      - apply ranges_map_bucket. rng. }
+    destruct (lookup id (tb (tab s))) as [[k n]|] eqn:LK.
+    + destruct (negb (nip n =? ip)); [exact Base|]. simpl.
+      destruct (SG (tab s) k n T A) as [S1 S2]. split; [exact S1|split; [|reflexivity]].
+      intros r Hr. left. simpl. rewrite S2. assumption.
+    + destruct (negb (want_node s id)); [exact Base|].
+      set (nd := mkNode id ip port 0 false 0).
+      pose proof (add_node_tinv (own s) (now s) nd (tab s) T LK) as HT.
+      unfold add_node_to_bucket in *.
+      destruct (find_bucket (nid nd) (tb (tab s))) as [b|] eqn:FB.
+      2:{ exfalso. simpl in OK. destruct T as [C F].
+          destruct (tinv_partition _ 0 id C F (N.le_0_l _) OK) as [b [Ib [X [Y _]]]].
+          clear - FB Ib Y. simpl in FB. induction (tb (tab s)) as [|b0 r IH]; simpl in *; [destruct Ib|].
+          destruct (id <=? bhi b0) eqn:Q; [discriminate|]. destruct Ib as [->|Ib]; [apply N.leb_gt in Q; lia|apply IH; assumption]. }
+      destruct T as [C F].
+      destruct (find_bucket_covers _ _ _ _ C F (N.le_0_l _) FB) as [G [A1 A2]].
+      destruct (get_bucket_in _ _ _ G) as [Ib _].
+      assert (AT : at_bucket (tb (tab s)) (bhi b) (nid nd)).
+      { exists b. repeat split; try assumption. eapply lookup_none; eauto. }
+      assert (SN : node_seen_ok nd) by (unfold node_seen_ok, nd; simpl; unfold u32; lia).
+      pose proof (add_loop_own add_fuel (own s) (now s) nd (bhi b) (tab s) (conj C F) A AT SN) as HO.
+      destruct (add_loop add_fuel (own s) (now s) nd (bhi b) (tab s)) as [t [|]|t|]; try contradiction.
+      * destruct HO as [At [Sv Zin]]. specialize (Zin eq_refl).
+        pose proof (all_ids_lookup _ _ Zin) as LN. simpl in LN.
+        destruct (lookup id (tb t)) as [[k n]|]; [|contradiction]. simpl.
+        destruct (SG t k n HT At) as [S1 S2]. split; [exact S1|split; [|reflexivity]].
+        intros r Hr. destruct (Sv r Hr) as [X|X]; [left; simpl; rewrite S2; assumption|right; assumption].
+      * destruct HO as [At [Sv _]]. simpl. split; [split; [split; assumption|assumption]|split; [assumption|reflexivity]].
+  - destruct (id =? own s); [exact Base|]. unfold node_inactive.
+    destruct (lookup id (tb (tab s))) as [[k n]|] eqn:LK; [|exact Base]. destruct (negb (nip n =? ip)); [exact Base|].
+    assert (T1 : tinv (map_bucket k (b_inactive n) (tb (tab s)))) by (apply tinv_map_bucket; [rng|intros; apply ok_inactive; assumption|assumption]).
+    assert (A1 : aux (own s) (mkTable (map_bucket k (b_inactive n) (tb (tab s))) (tchain (tab s)) (town (tab s))))
+      by (apply aux_map_bucket; [rng|intros; apply seen_inactive; assumption|assumption]).
+    assert (R1 : ranges (map_bucket k (b_inactive n) (tb (tab s))) = ranges (tb (tab s))) by (apply ranges_map_bucket; rng).
+    assert (LN : lookup id (map_bucket k (b_inactive n) (tb (tab s))) <> None)
+      by (apply lookup_map_bucket; [intros; apply inactive_ids|rewrite LK; discriminate]).
+    destruct (lookup id (map_bucket k (b_inactive n) (tb (tab s)))) as [[k' n1]|]; [|contradiction].
+    destruct (is_bad n1 && _); simpl.
+    + split; [split; [split|assumption]|split; [|reflexivity]].
+      * apply tinv_map_bucket; [intros; split; reflexivity|intros; apply ok_remove; assumption|assumption].
+      * apply (aux_map_bucket (own s) (mkTable (map_bucket k (b_inactive n) (tb (tab s))) (tchain (tab s)) (town (tab s))) k (b_remove n1));
+          [intros; split; reflexivity|intros; apply seen_remove; assumption|assumption].
+      * intros r Hr. left. rewrite ranges_map_bucket by (intros; split; reflexivity). rewrite R1. assumption.
+    + split; [split; [split; assumption|assumption]|split; [|reflexivity]]. intros r Hr. left. simpl. rewrite R1. assumption.
+  - unfold node_invalid. destruct (lookup id (tb (tab s))) as [[k n]|]; [|exact Base]. simpl.
+    split; [split; [split|assumption]|split; [|reflexivity]].
+    + apply tinv_map_bucket; [intros; split; reflexivity|intros; apply ok_remove; assumption|assumption].
+    + apply aux_map_bucket; [intros; split; reflexivity|intros; apply seen_remove; assumption|assumption].
+    + intros r Hr. left. rewrite ranges_map_bucket by (intros; split; reflexivity). assumption.
+  - split; [split; [split|assumption]|split; [|reflexivity]].
+    + simpl. apply tinv_map; [intros; split; reflexivity|intros; apply ok_housekeeping; assumption|assumption].
+    + simpl. apply aux_map; [intros; split; reflexivity| |assumption].
+      intros b Hb. simpl. apply Forall_map. eapply Forall_impl; [|exact Hb]. intros n Hn. exact Hn.
+    + intros r Hr. left. simpl. unfold ranges in *. rewrite map_map. simpl. assumption.
+  - destruct (token_valid sha s tok ip); [destruct ((port <? 1) || (65535 <? port))|]; exact Base.
+  - assert (Cl : let s' := with_tab s (fst (closest_nodes (tab s) ih)) in sI s' /\ survives (own s) (tb (tab s)) (tb (tab s')) /\ own s' = own s).
+    { simpl. split; [split; [split; [apply closest_tinv; assumption|apply closest_aux; assumption]|assumption]|].
+      split; [|reflexivity]. intros r Hr. left. rewrite closest_ranges. assumption. }
+    destruct (get_tracker ih (trackers s)) as [[|p l]|]; try exact Base;
+      (destruct (closest_nodes (tab s) ih) as [t' [|c l']]; exact Cl).
+  - assert (Cl : let s' := with_tab s (fst (closest_nodes (tab s) target)) in sI s' /\ survives (own s) (tb (tab s)) (tb (tab s')) /\ own s' = own s).
+    { simpl. split; [split; [split; [apply closest_tinv; assumption|apply closest_aux; assumption]|assumption]|].
+      split; [|reflexivity]. intros r Hr. left. rewrite closest_ranges. assumption. }
+    destruct (closest_nodes (tab s) target) as [t' [|c l']]; exact Cl.
+Qed.
+
+End OwnSteps.
+
+(* ---------------------------------------------------------------- every op list *)
+Section OwnRuns.
+Variable sha : list N -> list N.
+
+Definition tick (o : op) : N := match o with OTick dt => dt | _ => 0 end.
+Fixpoint ticks (ops : list op) : N := match ops with [] => 0 | o :: r => tick o + ticks r end.
+
+Lemma step_now : forall s o, err s = false -> now (fst (step sha s o)) = now s + tick o.
+Proof.
+  intros s o He. unfold step. rewrite He.
+  destruct o as [ip rnd m|ip|dt|id ip port|id ip port|id ip port|id|secret|ip|tok ip|ih ip port tok|ih ip rnd|target|id|];
+    simpl; try (rewrite N.add_0_r; reflexivity); try reflexivity.
+  - rewrite N.add_0_r. pose proof (dgram_cp sha s ip rnd m) as H. cbv zeta in H. destruct H as [_ [_ [_ [Nw _]]]].
+    destruct (m_y m) as [[|ty [|? ?]]|]; try (destruct (dgram sha s ip rnd m); simpl in *; assumption).
+    destruct ((ty =? 114) || (ty =? 101)); [reflexivity|]. destruct (dgram sha s ip rnd m); simpl in *; assumption.
+  - rewrite N.add_0_r. destruct (id =? own s); [reflexivity|]. unfold node_queried.
+    destruct (lookup id (tb (tab s))) as [[k n]|]; [|reflexivity]. destruct (negb (nip n =? ip)); reflexivity.
+  - rewrite N.add_0_r. destruct (id =? own s); [reflexivity|]. unfold node_replied.
+    destruct (lookup id (tb (tab s))) as [[k n]|].
+    + destruct (negb (nip n =? ip)); reflexivity.
+    + destruct (negb (want_node s id)); [reflexivity|].
+      destruct (add_node_to_bucket _ _ _ _) as [t [|]|t|]; try reflexivity.
+      destruct (lookup id (tb t)) as [[k n]|]; reflexivity.
+  - rewrite N.add_0_r. destruct (id =? own s); [reflexivity|]. unfold node_inactive.
+    destruct (lookup id (tb (tab s))) as [[k n]|]; [|reflexivity]. destruct (negb (nip n =? ip)); [reflexivity|].
+    destruct (lookup id _) as [[k' n1]|]; [|reflexivity].
+    destruct (is_bad n1 && _); reflexivity.
+  - rewrite N.add_0_r. unfold node_invalid. destruct (lookup id (tb (tab s))) as [[k n]|]; reflexivity.
+  - rewrite N.add_0_r. destruct (token_valid sha s tok ip); [destruct ((port <? 1) || (65535 <? port))|]; reflexivity.
+  - rewrite N.add_0_r. destruct (get_tracker ih (trackers s)) as [[|p l]|];
+      try (destruct (closest_nodes (tab s) ih) as [t' [|c l']]; reflexivity).
+  - rewrite N.add_0_r. destruct (closest_nodes (tab s) target) as [t' [|c l']]; reflexivity.
+Qed.
+
+Lemma survives_trans : forall o a b c, survives o a b -> survives o b c -> survives o a c.
+Proof. intros o a b c H1 H2 r Hr. destruct (H1 r Hr) as [X|X]; [apply H2; assumption|right; assumption]. Qed.
+
+Lemma run_own : forall ops s, sI s -> now s + ticks ops < u32 - 1 -> Forall op_ok ops ->
+  sI (run sha s ops) /\ survives (own s) (tb (tab s)) (tb (tab (run sha s ops))) /\ own (run sha s ops) = own s.
+Proof.
+  induction ops as [|o ops IH]; simpl; intros s H Nw F.
+  - split; [assumption|split; [apply survives_refl|reflexivity]].
+  - inversion F as [|? ? Fo Fr]; subst.
+    assert (Nw0 : now s < u32 - 1) by (unfold u32 in *; simpl in *; lia).
+    destruct (step_own sha s o H Nw0 Fo) as [H1 [S1 O1]].
+    assert (Nw1 : now (fst (step sha s o)) + ticks ops < u32 - 1) by (rewrite step_now by (apply H); unfold u32 in *; simpl in *; lia).
+    destruct (IH _ H1 Nw1 Fr) as [H2 [S2 O2]]. rewrite O1 in S2.
+    split; [assumption|split; [eapply survives_trans; eauto|congruence]].
+Qed.
+
+Lemma init_sI : forall ownid c p t0, ownid < idspace -> sI (init ownid c p t0).
+Proof.
+  intros ownid c p t0 Ho. split; [|reflexivity]. split; [apply init_sinv|]. unfold aux. simpl. split; [|split].
+  - exists (init_bucket t0). split; [vm_compute; reflexivity|]. unfold init_bucket; cbn [blo bhi]. split; lia.
+  - split; [exists []; split; [reflexivity|intros []]|]. simpl. intros x Hx. exact Hx.
+  - constructor; [constructor|constructor].
+Qed.
+
+(* only_own_bucket_splits + no internal error, from the initial state, for every op list whose clock
+   stays below 2^32 - 1 and whose reply ops carry 20-byte ids *)
+Theorem run_from_init : forall ownid c p t0 ops, ownid < idspace -> t0 + ticks ops < u32 - 1 -> Forall op_ok ops ->
+  let s := run sha (init ownid c p t0) ops in
+  err s = false /\ own s = ownid /\
+  (forall r, In r (ranges [init_bucket t0]) -> True) /\
+  sI s.
+Proof.
+  intros ownid c p t0 ops Ho Nw F s.
+  destruct (run_own ops (init ownid c p t0) (init_sI ownid c p t0 Ho) Nw F) as [H [_ O]].
+  split; [apply H|split; [exact O|split; [trivial|exact H]]].
+Qed.
+
+Theorem only_own_splits_step : forall ownid c p t0 ops o, ownid < idspace -> t0 + ticks (ops ++ [o]) < u32 - 1 ->
+  Forall op_ok (ops ++ [o]) ->
+  let s := run sha (init ownid c p t0) ops in
+  forall lo hi, In (lo, hi) (ranges (tb (tab s))) ->
+    In (lo, hi) (ranges (tb (tab (fst (step sha s o))))) \/ (lo <= ownid /\ ownid <= hi).
+Proof.
+  intros ownid c p t0 ops o Ho Nw F s lo hi Hr.
+  apply Forall_app in F. destruct F as [F1 F2]. inversion F2 as [|? ? Fo _]; subst.
+  assert (TK : ticks (ops ++ [o]) = ticks ops + tick o).
+  { clear. induction ops as [|x r IH]; simpl; [lia|]. rewrite IH. lia. }
+  rewrite TK in Nw.
+  destruct (run_own ops (init ownid c p t0) (init_sI ownid c p t0 Ho) ltac:(unfold u32 in *; simpl in *; lia) F1) as [H [_ O]].
+  fold s in H, O.
+  assert (NS : now s = t0 + ticks ops).
+  { unfold s. clear - Ho F1 Nw. 
+    assert (G : forall ops s0, sI s0 -> now s0 + ticks ops < u32 - 1 -> Forall op_ok ops -> now (run sha s0 ops) = now s0 + ticks ops).
+    { intros ops1. induction ops1 as [|x r IH]; simpl; intros s0 H0 N0 F0; [lia|]. inversion F0 as [|? ? Fx Fr]; subst.
+      assert (N00 : now s0 < u32 - 1) by (unfold u32 in *; simpl in *; lia).
+      destruct (step_own sha s0 x H0 N00 Fx) as [H1 _].
+      rewrite IH; [rewrite step_now by (apply H0); lia|assumption|rewrite step_now by (apply H0); unfold u32 in *; simpl in *; lia|assumption]. }
+    apply G; [apply init_sI; assumption|unfold u32 in *; simpl in *; lia|assumption]. }
+  destruct (step_own sha s o H ltac:(unfold u32 in *; simpl in *; lia) Fo) as [_ [Sv _]].
+  rewrite O in Sv. exact (Sv (lo, hi) Hr).
+Qed.
+
+End OwnRuns.
